@@ -217,7 +217,8 @@ def h_point(h, marks):
     ex = [h.real(f'e{i}') for i in range(k)]
     notes = ['001', '1e1', '7']
     iso = isofix.point_iso(h, ps, ns, ads=ads, T=300.0, branch=list(marks),
-                           extra={'enthalpy': isofix.column(h, ex), 'note': list(notes)}, properties={'user': 'kept'})
+                           extra={'enthalpy': isofix.column(h, ex), 'note': list(notes)}, properties={'user': 'kept'},
+                           index=[7, 0, 5])       # row labels are not positions (a filtered / re-ordered table)
     iso._adsorbate = type(ads)('fakegas-placeholder')
     with json_patch():
         doc = pj.isotherm_to_json(iso)
